@@ -61,6 +61,26 @@ class ConsumerClient(Client):
         self.w.stats["intent:herald_variant"] += 1
         return self.queued()
 
+    def sample_size(self):
+        r = self.rng
+        if self.cfg.get("big_n"):
+            return r.choice([2000, 20000, 20000])
+        return r.choice([20, 50, 200])
+
+    def perturbation(self):
+        """F-prng between the two halves of a same-seed pair."""
+        r, w = self.rng, self.w
+        out = []
+        for _ in range(r.randint(1, 3)):
+            k = r.choice(["draw", "seed", "npseed", "npdraw", "other_sample"])
+            if k == "other_sample":
+                ids = list(w.pool["sam"])
+                if ids:
+                    out.append(["other_sample", self.pick(ids)])
+            else:
+                out.append([k, r.randrange(1, 1000)])
+        return out
+
     def state_for_n(self, n):
         s = [0] * n
         for _ in range(self.rng.randint(0, 2)):
@@ -162,7 +182,7 @@ class SamplerUser(ConsumerClient):
         k = r.random()
         if k < 0.5:
             return {"op": "read_dist", "kind": "sam", "s": sid}
-        if k < 0.75:
+        if k < 0.75 or self.cfg.get("big_n"):
             return {"op": "sample_n_inputs", "s": sid, "n": 50,
                     "seed": r.randrange(1 << 30)}
         return {"op": "sample", "kind": "sam", "s": sid,
@@ -191,18 +211,30 @@ class SamplerUser(ConsumerClient):
         if k == "read":
             return {"op": "read_dist", "kind": "sam", "s": sid}
         if k == "sample":
+            if cfg.get("big_n") and s.circuit.heralds["input"] and r.random() < 0.9:
+                # Sampler.sample() on heralded circuits is known finding K4:
+                # keep it rare, a hit ends the run
+                k = "read"
+                return {"op": "read_dist", "kind": "sam", "s": sid}
             o = {"op": "sample", "kind": "sam", "s": sid,
                  "stream": r.randrange(1 << 30)}
+            if cfg.get("big_n") and r.random() < 0.5:
+                o = {"op": "sample_many", "kind": "sam", "s": sid,
+                     "n": r.choice([2000, 5000]), "stream": r.randrange(1 << 30)}
+            elif cfg.get("big_n") and r.random() < 0.3:
+                o["script"] = [r.choice([0.0, 1 - 2.0 ** -53, 0.5])]
             return o
         if k in ("sample_n", "sample_o"):
             o = {"op": "sample_n_inputs" if k == "sample_n" else "sample_n_outputs",
-                 "s": sid, "n": r.choice([20, 50, 200]),
+                 "s": sid, "n": self.sample_size(),
                  "seed": r.randrange(1 << 30)}
             ps = self.pick_postsel()
             if ps is not None:
                 o["ps"] = ps
             if r.random() < 0.4:
                 o["md"] = r.randint(0, 2)
+            if cfg.get("big_n") and r.random() < 0.5:
+                o["twice"] = self.perturbation()
             return o
         if k == "circuit":
             cands = self.small_circuits(s.circuit.input_modes if r.random() < 0.85 else None)
@@ -368,11 +400,20 @@ class QuickUser(ConsumerClient):
         if k == "read":
             return {"op": "read_dist", "kind": "qs", "s": sid}
         if k == "sample":
-            return {"op": "sample", "kind": "qs", "s": sid,
-                    "stream": r.randrange(1 << 30)}
+            o = {"op": "sample", "kind": "qs", "s": sid,
+                 "stream": r.randrange(1 << 30)}
+            if cfg.get("big_n") and r.random() < 0.5:
+                o = {"op": "sample_many", "kind": "qs", "s": sid,
+                     "n": r.choice([2000, 5000]), "stream": r.randrange(1 << 30)}
+            elif cfg.get("big_n") and r.random() < 0.3:
+                o["script"] = [r.choice([0.0, 1 - 2.0 ** -53, 0.5])]
+            return o
         if k == "sample_o":
-            return {"op": "quick_n_outputs", "s": sid,
-                    "n": r.choice([20, 50, 200]), "seed": r.randrange(1 << 30)}
+            o = {"op": "quick_n_outputs", "s": sid,
+                 "n": self.sample_size(), "seed": r.randrange(1 << 30)}
+            if cfg.get("big_n") and r.random() < 0.5:
+                o["twice"] = self.perturbation()
+            return o
         if k == "circuit":
             cands = self.small_circuits(s.circuit.input_modes if r.random() < 0.85 else None)
             rel = self.related(cid, cands)
